@@ -106,6 +106,11 @@ end
 
 /-! ### The parser -/
 
+/-- Longest prefix satisfying `p`, and the rest. -/
+def spanP (p : Char → Bool) : List Char → List Char × List Char
+  | [] => ([], [])
+  | c :: cs => if p c then ((c :: (spanP p cs).1), (spanP p cs).2) else ([], c :: cs)
+
 def dropPrefix? : List Char → List Char → Option (List Char)
   | [], s => some s
   | _ :: _, [] => none
@@ -132,7 +137,7 @@ def parseSegs : Nat → List Char → List String × List Char
   | f + 1, s =>
     match s with
     | ':' :: ':' :: r =>
-        let p := r.span isIdChar
+        let p := spanP isIdChar r
         if p.1 = [] then ([], s) else
         let q := parseSegs f p.2
         (String.ofList p.1 :: q.1, q.2)
@@ -142,7 +147,7 @@ def parseSegs : Nat → List Char → List String × List Char
 def parseRefLt (s : List Char) : Option (Lt × List Char) :=
   match s with
   | '\'' :: r =>
-      let p := r.span isIdChar
+      let p := spanP isIdChar r
       if p.1 = [] then none else
       match p.2 with
       | ' ' :: r2 => some (ltOfName p.1, r2)
@@ -167,15 +172,18 @@ def parseTy : Nat → List Char → Option (Ty × List Char)
         match parseRefLt r with
         | none => none
         | some (l, r1) =>
-          match dropPrefix? "mut ".toList r1 with
-          | some r2 =>
-              match parseTy f r2 with
-              | some (t, r3) => some (.ref true l t, r3)
-              | none => none
-          | none =>
-              match parseTy f r1 with
-              | some (t, r3) => some (.ref false l t, r3)
-              | none => none
+          let p := spanP isIdChar r1
+          if p.1 = "mut".toList then
+            match p.2 with
+            | ' ' :: r2 =>
+                match parseTy f r2 with
+                | some (t, r3) => some (.ref true l t, r3)
+                | none => none
+            | _ => none
+          else
+            match parseTy f r1 with
+            | some (t, r3) => some (.ref false l t, r3)
+            | none => none
     | '(' :: r =>
         match r with
         | ')' :: r1 => some (.tuple .nil, r1)
@@ -198,7 +206,7 @@ def parseTy : Nat → List Char → Option (Ty × List Char)
           match r1 with
           | ']' :: r2 => some (.slice t, r2)
           | ';' :: ' ' :: r2 =>
-              let p := r2.span Char.isDigit
+              let p := spanP Char.isDigit r2
               if p.1 = [] then none else
               match p.2 with
               | ']' :: r3 => some (.array t (digitsVal p.1), r3)
@@ -217,8 +225,12 @@ def parseTy : Nat → List Char → Option (Ty × List Char)
               | some (t, r2) => some (.rawPtr false t, r2)
               | none => none
           | none => none
-    | _ =>
-        let p := s.span isIdChar
+    | _ => parseIdLed f s
+/-- A type that starts with an identifier or keyword: scalar, generic parameter, path, fn pointer. -/
+def parseIdLed : Nat → List Char → Option (Ty × List Char)
+  | 0, _ => none
+  | f + 1, s =>
+        let p := spanP isIdChar s
         if p.1 = [] then none
         else if p.1 = "unsafe".toList ∨ p.1 = "extern".toList ∨ p.1 = "fn".toList then parseFn f s
         else
@@ -259,13 +271,13 @@ def parseArg : Nat → List Char → Option (PArg × List Char)
   | f + 1, s =>
     match s with
     | '\'' :: r =>
-        let p := r.span isIdChar
+        let p := spanP isIdChar r
         if p.1 = [] then none else some (.lt (gltOfName p.1), p.2)
     | _ =>
-        let d := s.span Char.isDigit
+        let d := spanP Char.isDigit s
         if d.1 ≠ [] then some (.const (String.ofList d.1), d.2)
         else
-          let p := s.span isIdChar
+          let p := spanP isIdChar s
           if p.1 = "true".toList ∨ p.1 = "false".toList then some (.const (String.ofList p.1), p.2)
           else
             match parseTy f s with
@@ -288,14 +300,14 @@ def parseArgsTail : Nat → List Char → Option (GArgs × List Char)
 def parseIn : Nat → List Char → Option ((Option String × Ty) × List Char)
   | 0, _ => none
   | f + 1, s =>
-    let p := s.span isIdChar
-    match p.2 with
-    | ':' :: ' ' :: r =>
+    let p := spanP isIdChar s
+    match dropPrefix? ": ".toList p.2 with
+    | some r =>
         if p.1 = [] then none else
         match parseTy f r with
         | some (t, r1) => some ((some (String.ofList p.1), t), r1)
         | none => none
-    | _ =>
+    | none =>
         match parseTy f s with
         | some (t, r1) => some ((none, t), r1)
         | none => none
@@ -321,7 +333,7 @@ def parseFn : Nat → List Char → Option (Ty × List Char)
       | none => (false, s)
     let a : Option (Abi × List Char) := match dropPrefix? "extern \"".toList u.2 with
       | some r =>
-          let p := r.span (fun c => c != '"')
+          let p := spanP (fun c => c != '"') r
           match dropPrefix? "\" ".toList p.2 with
           | some r1 => some (abiOfStr p.1, r1)
           | none => none
@@ -357,7 +369,7 @@ end
 
 /-- Reads a rendered type; the whole input must be consumed. -/
 def parse (s : List Char) : Option Ty :=
-  match parseTy (s.length + 1) s with
+  match parseTy (2 * s.length + 2) s with
   | some (t, []) => some t
   | _ => none
 
